@@ -25,8 +25,49 @@ def run(ctx):
     for b in gd:
         key = fnkey(b)
         pr = Prov(b)
-        sends = [c for c in b.calls() if c.is_in("tokio::sync::oneshot", "Sender::send")]
+        is_send = lambda c: c.is_in("tokio::sync::oneshot", "Sender::send")
+        sends = [c for c in b.calls() if is_send(c)]
         closes = [c for c in b.calls() if c.is_trait_method("CloseValue", "close")]
+        via_helper = None
+        if not sends:
+            # the sending may sit in a private helper the destructor hands the slot's contents to (`open.close_and_send_back()`,
+            # `Self::send_back(slot, mode)`): the helper's call stands for the send here, and the helper is judged the same way
+            cand = [(c, hb) for c in b.calls() for hb in local_callee_bodies(F, c) if hb.crate == MQ and hb.kind != "Closure" and any(is_send(x) for x in hb.calls())]
+            if len(cand) == 1:
+                via_helper = cand[0]
+                hc, hb = via_helper
+                hs = [x for x in hb.calls() if is_send(x)]
+                hcl = [x for x in hb.calls() if x.is_trait_method("CloseValue", "close")]
+                hat, hwhy = at_most_once(hb, [x.bb for x in hs])
+                hpr = Prov(hb)
+                # the helper may be handed an already emptied slot (its `else` arm does nothing): what matters is that a writable one is sent
+                ctx.check(hat and all(any(("call", x.bb) in hpr.operand(s_.args[1]) for x in hcl) for s_ in hs), "R13.1", key + "#send-once", loc(hb),
+                          "the helper the destructor hands the slot to does not send the closed value at most once (%s)" % hwhy, "send inside %s" % hb.name)
+                # inside the helper the send may be skipped only because the slot it was handed is not a writable one (a branch on the
+                # variant of its own parameter) or the receiver is gone; any other way around the send loses the value
+                skip_ok = set()
+                for i_ in hb.live_blocks():
+                    t_ = hb.term(i_)
+                    if t_["k"] != "switch":
+                        continue
+                    on_param = any(st_["k"] == "assign" and st_["rv"]["k"] == "discr" and any(x[0] == "arg" for x in hpr.local(st_["rv"]["place"]["l"])) for st_ in hb.stmts(i_))
+                    closed = any(x[0] == "call" and (hb.term(x[1]).get("callee") or {}).get("name") == "is_closed" for x in hpr.operand(t_["discr"]))
+                    if on_param or closed:
+                        for y in hb.succ(i_):
+                            if not any(x.bb in hb.reachable(y) for x in hs):
+                                skip_ok.add((i_, y))
+                seen_, st2_ = {0}, [0]
+                while st2_:
+                    x_ = st2_.pop()
+                    if x_ in [x.bb for x in hs]:
+                        continue
+                    for y in hb.succ(x_):
+                        if y not in seen_ and (x_, y) not in skip_ok and not hb.is_cleanup(y):
+                            seen_.add(y)
+                            st2_.append(y)
+                ctx.check(not (seen_ & set(hb.return_blocks())), "R13.1", key + "#send-on-every-return", loc(hb),
+                          "the helper the destructor hands the slot to can return without sending the value of a writable slot", "every path of %s sends" % hb.name)
+                sends = [hc]
         at, why = at_most_once(b, [c.bb for c in sends])
         ctx.check(bool(sends) and at, "R13.1", key + "#send-once", loc(b), "the closed slot value is not sent exactly once (%d send sites; %s)" % (len(sends), why))
         # every normal Return passes the send (the other arm is unreachable!())
@@ -36,7 +77,7 @@ def run(ctx):
                 for sw, tg, oth in switch_on_call_result(b, c):
                     closed_t.append(oth)     # receiver already gone: nothing to send to
         ctx.check(b.must_pass([c.bb for c in sends] + closed_t), "R13.1", key + "#send-on-every-return", loc(b), "the destructor can return without sending the slot value")
-        for s in sends:
+        for s in sends if via_helper is None else []:
             o = pr.operand(s.args[1])
             ctx.check(any(("call", c.bb) in o for c in closes), "R13.1", key + "#sends-closed-value", loc(b, s.bb), "the value sent to the parent is not CloseValue::close(value)")
         # the mode field is untouched before the send
@@ -60,6 +101,23 @@ def run(ctx):
                     if any(e[0] == "f" and e[2] in mode_fields for e in p.get("p", [])):
                         touched.append(i)
         pre = [i for i in touched if any(s.bb in b.reachable(i) for s in sends)]
+        if via_helper is not None and pre:
+            # the mode (and the flush guard in it) handed to the sending helper as an argument: it must outlive the send there
+            hc, hb = via_helper
+            mode_args = [ai for ai, a in enumerate(hc.args) if op_local(a) is not None and ("OnParentDrop" in b.local_ty(op_local(a)) or "FlushGuard" in b.local_ty(op_local(a)))]
+            if mode_args:
+                hs = [x.bb for x in hb.calls() if is_send(x)]
+                early = []
+                for ai in mode_args:
+                    pl = ai + 1
+                    for i in hb.live_blocks():
+                        t = hb.term(i)
+                        dropped = (t["k"] == "drop" and t["place"]["l"] == pl) or (t["k"] == "call" and (t.get("callee") or {}).get("def") == "core::mem::drop" and
+                                                                                  any(any(x[0] == "arg" and x[1] == pl for x in Prov(hb).operand(a)) for a in t["args"]))
+                        if dropped and any(sb_ in hb.reachable_after(i) for sb_ in hs):
+                            early.append(i)
+                if not early:
+                    pre = []
         ctx.check(not pre, "R13.1", key + "#mode-untouched-before-send", loc(b, pre[0] if pre else None),
                   "the field holding the flush guard is written / moved out before the value is sent: the parent entry can be flushed before the slot value arrives")
     # ------------------------------------------------------------------ R13.2
